@@ -1099,6 +1099,9 @@ impl RaftLogManager {
         save_logs.push(new_log_range.clone());
         let index_request = RaftIndexRequest::SaveLogs(save_logs);
         self.index_manager.as_ref().unwrap().do_send(index_request);
+        // a new range starts with a new file: a truncation across a file boundary takes the later
+        // ranges out of the list but leaves their files, and the id of such a range is used again
+        std::fs::remove_file(Self::get_log_path(&self.base_path, &new_log_range)).ok();
         let log_actor_addr = Self::create_log_actor(&self.base_path, &new_log_range);
         self.logs.push(LogRangeWrap {
             log_range: new_log_range,
